@@ -49,7 +49,8 @@ def build_msg(m: dict) -> bytes:
     if not m.get("no_origin"):
         body += A(ORIGIN_HOST, host) + A(ORIGIN_REALM, realm)
     if k == "CER":
-        body += A(HOST_IP, b"\x00\x01" + bytes([10, 1, 1, m.get("ipn", 1)])) + A(VENDOR_ID, u32(m.get("vendor", 1)))
+        host_ip = bytes.fromhex(m["host_ip_raw"]) if m.get("host_ip_raw") is not None else b"\x00\x01" + bytes([10, 1, 1, m.get("ipn", 1)])
+        body += A(HOST_IP, host_ip) + A(VENDOR_ID, u32(m.get("vendor", 1)))
         body += A(PRODUCT_NAME, b"verif-peer", 0)
         for a in m.get("auth", []):
             body += A(AUTH_APP, u32(a))
